@@ -93,14 +93,14 @@ func ReadBlockSummaries(fileName string,
 
 	for offset < fileSize {
 
-		// todo kunal do we need blksumlen ?
-		offset += 4 // for blkSumLen
-
-		if len(rbuf[offset:]) < 2+8+8+2+2 {
+		if len(rbuf[offset:]) < 4+2+8+8+2+2 {
 			log.Errorf("ReadBlockSummaries: expected at least %d more bytes for block header, got %d more bytes; file=%v, offset=%d",
-				2+8+8+2+2, len(rbuf[offset:]), fileName, offset)
+				4+2+8+8+2+2, len(rbuf[offset:]), fileName, offset)
 			return blockSummaries, allBmi, errors.New("bad data")
 		}
+
+		// todo kunal do we need blksumlen ?
+		offset += 4 // for blkSumLen
 
 		// read blknum
 		blkNum := utils.BytesToUint16LittleEndian(rbuf[offset:])
@@ -248,6 +248,12 @@ func ReadMetricsBlockSummaries(fileName string) ([]*structs.MBlockSummary, error
 	}
 	offset := int64(1)
 	for offset < fileSize {
+		if len(data[offset:]) < 2+8+8 {
+			log.Errorf("ReadMetricsBlockSummaries: expected at least %d more bytes for block summary, got %d more bytes; file=%v, offset=%d",
+				2+8+8, len(data[offset:]), fileName, offset)
+			return mBlockSummaries, errors.New("bad data")
+		}
+
 		blkNum := utils.BytesToUint16LittleEndian(data[offset:])
 		offset += 2
 
